@@ -438,3 +438,45 @@ Example c20_index_fetch_exhausted_is_error :
       [ {| rk := 2; rfail := false; reager := false |}; {| rk := 0; rfail := true; reager := false |} ]
       [CServe; CStatus] = Ok (so, None).
 Proof. eexists. vm_compute. reflexivity. Qed.
+
+(* ======================================================================== *)
+(* Final round: the cache directory WHILE the index download runs.          *)
+(* ======================================================================== *)
+(* retrieveAndSaveFile, as goextract reads it on this run: io.Copy writes into the
+   os.CreateTemp file, and it is that file's name that AdvertiseCachedFile links under
+   another (the final) name *)
+Theorem c20_cache_text_as_modelled : copy_goes_into_temporary_file = true.
+Proof. reflexivity. Qed.
+Print Assumptions c20_cache_text_as_modelled.
+
+(* For every server content, every body-read script (the connection cut anywhere, any
+   chunking) and every framed response: at every moment of the download — after the
+   temporary file was created, after each body read of the copy, after retrieveAndSaveFile
+   returned — another process finds under the final name nothing, or exactly the server's
+   bytes. A partially written file is never advertised. *)
+Theorem c20_cached_never_partially_advertised : forall dat c rds d,
+  framed_ev c = true -> adv d = None ->
+  Forall (fun d' => adv d' = None \/ adv d' = Some dat)
+    (retrieve_trace code_cshape copy_goes_into_temporary_file dat c rds d).
+Proof. intros dat c rds d. exact (retrieve_never_advertises_partial code_cshape dat c rds d (proj2 (proj2 (proj2 (proj2 c20_text_as_modelled))))). Qed.
+Print Assumptions c20_cached_never_partially_advertised.
+
+(* ... which is a fact about where the copy goes: with the bytes written straight into the
+   file that carries the final name, two of five bytes are advertised while the download runs *)
+Theorem c20_cached_direct_write_refuted :
+  exists dat rds d',
+    List.In d' (retrieve_trace {| copy_decides := true; removes_tmp := true; copy_first := true |} false dat CServe rds
+                  {| adv := None; tmps := [] |}) /\
+    adv d' = Some [1; 2]%N /\ dat = [1; 2; 3; 4; 5]%N.
+Proof. exact direct_write_advertises_partial. Qed.
+Print Assumptions c20_cached_direct_write_refuted.
+
+(* non-vacuity: a download in two body reads passes through four directory states; the
+   temporary file grows, nothing is advertised until the end, then everything is *)
+Example c20_cached_trace_states :
+  retrieve_trace code_cshape copy_goes_into_temporary_file [1; 2; 3]%N CServe
+    [ {| rk := 2; rfail := false; reager := false |}; {| rk := 1; rfail := false; reager := true |} ]
+    {| adv := None; tmps := [] |} =
+  [ {| adv := None; tmps := [[]] |}; {| adv := None; tmps := [[1; 2]%N] |}; {| adv := None; tmps := [[1; 2; 3]%N] |};
+    {| adv := Some [1; 2; 3]%N; tmps := [] |} ].
+Proof. vm_compute. reflexivity. Qed.
